@@ -220,12 +220,6 @@ proof! {
     }
 }
 
-proof! {
-    fn routed_3x5_n1() {
-        routed::<1>(3, 5, "c15 routed_3x5_n1");
-    }
-}
-
 /// C15.b — one insert and one lookup from an *arbitrary* bucket satisfying the representation
 /// invariant (occupied slots form a prefix, no key twice); the invariant is re-established, so the
 /// statement extends to histories of any length on one bucket.
